@@ -604,6 +604,12 @@ function describeObjectMember(
   };
 }
 
+const IDENTIFIER_NAME = /^[A-Za-z_$][A-Za-z0-9_$]*$/;
+// a property name as it has to be written in a type literal
+function describePropertyName(key: string): string {
+  return IDENTIFIER_NAME.test(key) ? key : JSON.stringify(key);
+}
+
 function describeIndexObjectMember(
   ctx: DescribeContext,
   key: Runtype,
@@ -2012,7 +2018,7 @@ export class ObjectRuntype extends BaseRuntype {
     const sortedKeys = Object.keys(this.properties).sort();
     const props = sortedKeys.map((k) => {
       const it = this.properties[k];
-      return describeObjectMember(ctx, k, it);
+      return describeObjectMember(ctx, describePropertyName(k), it);
     });
 
     const indexProps = this.indexedPropertiesParser.map(({ key, value }) =>
